@@ -47,3 +47,19 @@ func VerifStartFuncNames() map[string]string {
 		"ws":     name((*Node).startWS),
 	}
 }
+
+// VerifListenAddrs returns the addresses the HTTP and WS listeners are actually
+// bound to ("" when not listening); with port 0 in the configuration the kernel
+// picks the port, and this is the only place to learn it.
+func (n *Node) VerifListenAddrs() map[string]string {
+	n.lock.RLock()
+	defer n.lock.RUnlock()
+	out := map[string]string{"http": "", "ws": ""}
+	if n.httpListener != nil {
+		out["http"] = n.httpListener.Addr().String()
+	}
+	if n.wsListener != nil {
+		out["ws"] = n.wsListener.Addr().String()
+	}
+	return out
+}
